@@ -832,7 +832,7 @@ def check_irregular(E, mm, st, model, dims, bs, rate, label, opts):
         E.check(tr.shape[0] == n_s, label + ': trace length')
         gi, gx = model.il_x_of(t)
         expect_source_voxel(E, st, tr.get((z,)), (gi, gx, z), dims, label + ': trace i is the i-th source trace', zero_fill=zero_fill, model=model)
-        for f in ((189, 193, 1) if opts.get('detection', 'heuristic') == 'heuristic' else (189, 193, 73, 1)):
+        for f in ((189, 193, 1, 37) if opts.get('detection', 'heuristic') == 'heuristic' else (189, 193, 73, 1, 37)):
             v = h[segyio.tracefield.TraceField(f)]
             E.check((not isinstance(v, tuple)) and (v == model.header_value(t, f)), label + ': header i is the i-th source header (field %d)' % f)
     if part == 'volume':
@@ -1081,11 +1081,13 @@ def items_for(prop, tier):
                         continue
                     if quick and il0 < 0 and (part != 'traces' or nh == 2):
                         continue
-                    cfgs.append(((4, 4, 256), 8, (1, 1, 1), dict(part=part, holes=nh, il0=il0, il_step=ils, xl0=xl0, xl_step=xls, ilxl=(3, 4), varying=(73,), dimcap=4, ns_cap=3)))
+                    cfgs.append(((4, 4, 256), 8, (1, 1, 1), dict(part=part, holes=nh, il0=il0, il_step=ils, xl0=xl0, xl_step=xls, ilxl=(3, 4), varying=(73,), consts={37: 5}, dimcap=4, ns_cap=3)))
             cfgs.append(((4, 4, 256), 8, (2, 1, 1), dict(part=part, holes=1, il0=10, il_step=2, xl0=20, xl_step=3, ilxl=(6, 3), varying=(73,), dimcap=4, ns_cap=3)))
+        cfgs.append(((4, 4, 256), 8, (1, 1, 1), dict(part='traces', holes=1, il0=10, il_step=2, xl0=20, xl_step=3, ilxl=(2, 3), detection='thorough', consts={37: 5},
+                                                     varying=(73,), dimcap=4, ns_cap=2)))
         if not quick:
             cfgs.append(((8, 8, 64), 8, (1, 1, 2), dict(part='volume', holes=1, il0=10, il_step=2, xl0=20, xl_step=3, ilxl=(3, 4), dimcap=4)))
-            cfgs.append(((4, 4, 256), 8, (1, 1, 1), dict(part='traces', holes=1, il0=10, il_step=2, xl0=20, xl_step=3, ilxl=(3, 4), detection='thorough', dimcap=4)))
+            cfgs.append(((4, 4, 256), 8, (1, 1, 1), dict(part='traces', holes=1, il0=10, il_step=2, xl0=20, xl_step=3, ilxl=(3, 4), detection='exhaustive', consts={37: 5}, dimcap=4)))
         for bs, rate, nb, o in cfgs:
             desc = 'segy-irregular|C08|bs=%s|nb=%s|%s' % ('x'.join(map(str, bs)), 'x'.join(map(str, nb)), ','.join('%s=%s' % kv for kv in sorted(o.items())))
             it = _I(desc, (lambda bs=bs, rate=rate, nb=nb, o=o: segy_item('irregular', bs, rate, nb, {'C08'}, o)), timeout_s=250 if quick else 600)
